@@ -148,6 +148,10 @@ class SimEs:
         if svc > 0:
             await asyncio.sleep(svc)
         self._h.on_request_end()
+        if self.sim.outage() and not fail:
+            fail = "connection-error"
+            if self.sim.fault_time is None:
+                self.sim.fault_time = self.sim.clock
         entry = {"client": self.client_id, "task": task_name, "start": start, "end": self.sim.clock, "fail": fail}
         if parent is not None:
             entry["parent"] = parent  # a sub-request of a composite request of task `parent`
@@ -245,6 +249,29 @@ def make_param_source_class(sim):
 
 
 class StubSyncEs:
+    """the synchronous client of the driver: only what the API-key life cycle needs (scenario['api_keys']); every call fails with a
+    connection error while the simulated cluster is unreachable (scenario['outage_from'])"""
+
+    is_serverless = False
+
+    class _Security:
+        def create_api_key(self, name=None, **kw):
+            SIM.check_outage()
+            SIM.api_keys_created.append(name)
+            return {"id": f"id-{name}", "name": name, "api_key": f"secret-{name}"}
+
+        def invalidate_api_key(self, ids=None, **kw):
+            SIM.check_outage()
+            SIM.api_keys_deleted.extend(ids)
+            return {"invalidated_api_keys": list(ids), "error_count": 0}
+
+    def __init__(self):
+        self.security = StubSyncEs._Security()
+
+    def info(self, **kw):
+        SIM.check_outage()
+        return {"version": {"number": "8.12.0"}}
+
     def __getattr__(self, name):
         raise AttributeError(name)
 
@@ -286,6 +313,13 @@ def patch_modules():
     driver.time = shim
     runner.time = shim
     context.time = shim
+    import esrally.client.factory as _factory
+
+    class FactoryTime(TimeShim):
+        def sleep(self, s):  # the retry loops of create_api_key / delete_api_keys block their actor; no virtual time passes
+            pass
+
+    _factory.time = FactoryTime()
     driver.load_local_config = lambda c: c
     driver.load_track = lambda cfg, install_dependencies=False: None
     driver.track.set_absolute_data_path = lambda cfg, t: None
@@ -391,7 +425,7 @@ def make_config(scenario):
     cfg.add(A, "mechanic", "car.names", ["default"])
     cfg.add(A, "mechanic", "skip.rest.api.check", True)
     cfg.add(A, "client", "hosts", Holder(all_hosts={"default": ["localhost:9200"]}))
-    cfg.add(A, "client", "options", Holder(all_client_options={"default": {}}))
+    cfg.add(A, "client", "options", Holder(all_client_options={"default": {"create_api_key_per_client": True} if scenario.get("api_keys") else {}}))
     cfg.add(A, "driver", "load_driver_hosts", scenario.get("hosts", ["localhost"]))
     cfg.add(A, "driver", "on.error", scenario.get("on_error", "continue"))
     cfg.add(A, "driver", "profiling", False)
@@ -577,6 +611,8 @@ class Sim:
         self.notes = []
         self.request_log = []
         self.progress_log = []
+        self.api_keys_created, self.api_keys_deleted = [], []
+        self.outage_from = scenario.get("outage_from")  # virtual time from which the cluster is unreachable (persistent)
         self.registration_listeners = set()
         self.executors = {}  # worker key -> dict(loop, task, future)
         self.call_counter = collections.Counter()
@@ -732,6 +768,17 @@ class Sim:
 
     def note(self, what, **kw):
         self.notes.append((what, kw))
+
+    def outage(self):
+        return self.outage_from is not None and self.clock >= self.outage_from
+
+    def check_outage(self):
+        import elastic_transport
+
+        if self.outage():
+            if self.fault_time is None:
+                self.fault_time = self.clock
+            raise elastic_transport.ConnectionError("simulated cluster outage")
 
     def make_exception(self, kind):
         import elasticsearch
